@@ -330,8 +330,16 @@ Definition ct_holds_b (N : nat) (t : ctree) : bool :=
   nodup_b (leaf_points t) && Nat.eqb (length (leaf_points t)) N &&
   forallb (fun x => (0 <=? x) && (x <? Z.of_nat N)) (leaf_points t).
 
+(* the largest scale found in a tree *)
+Fixpoint maxscale (t : ctree) : nat :=
+  match t with CN _ _ _ sc ch => fold_right (fun c a => Nat.max (maxscale c) a) sc ch end.
+
+(* every leaf carries the scale 100 (new_leaf) -- the query relies on it to stop splitting *)
+Fixpoint leaf100_b (t : ctree) : bool :=
+  match t with
+  | CN _ _ _ sc [] => Nat.eqb sc 100
+  | CN _ _ _ _ ch => forallb leaf100_b ch
+  end.
+
 (* enough fuel: every call either moves the query one level down or advances the scale *)
-Definition ct_fuel (t : ctree) : nat :=
-  (let fix maxscale (t : ctree) : nat :=
-     match t with CN _ _ _ sc ch => fold_right (fun c a => Nat.max (maxscale c) a) sc ch end in
-   size t + maxscale t + 3)%nat.
+Definition ct_fuel (t : ctree) : nat := (size t + maxscale t + 3)%nat.
